@@ -251,6 +251,8 @@ fn eval_inner(target: &str, input: &str) -> Option<String> {
         }
         "default_ns" => c10_default_ns_witness(),
         "fixed_doc" => c20_fixed_doc(input),
+        "deep_equal" => deepeq::check(input),
+        "three_routes" => routes::check(input),
         "strip_scope" => c18_strip_scope(input),
         "shallow_ignore" => c13_shallow(input),
         "scope_queries" => c09_scope(input),
@@ -258,9 +260,10 @@ fn eval_inner(target: &str, input: &str) -> Option<String> {
         "char_ref" => bounded::char_ref(input),
         "level_order" => bounded::level_order(input),
         "tree_ops" => {
-            let f: Vec<&str> = input.split(' ').collect();
-            if f.len() != 5 { return None; }
-            treeops::run(f[0].parse().ok()?, f[1] == "1", f[2], f[3].parse().ok()?, f[4].parse().ok()?)
+            // "<shape> <cons> <op> <x> <y>[;<op> <x> <y>]..."
+            let mut it = input.splitn(3, ' ');
+            let (shape, cons, rest) = (it.next()?, it.next()?, it.next()?);
+            treeops::run(shape.parse().ok()?, cons == "1", &treeops::parse_steps(rest)?)
         }
         _ => Some(format!("unknown target {}", target)),
     }
@@ -283,22 +286,33 @@ fn inputs(target: &str, large: bool) -> Vec<String> {
             v
         }
         "tree_ops" => {
+            // every single call; then (thorough) every sequence of two calls
+            let mut calls = Vec::new();
+            for op in ["append", "prepend", "insert_after", "insert_before", "detach", "remove"] {
+                for x in 0..treeops::max_nodes() {
+                    for y in 0..treeops::max_nodes() {
+                        if (op == "detach" || op == "remove") && y != 0 { continue; }
+                        calls.push(format!("{} {} {}", op, x, y));
+                    }
+                }
+            }
             let mut v = Vec::new();
             for shape in 0..treeops::shapes() {
                 for cons in ["1", "0"] {
-                    for op in ["append", "insert_after", "insert_before", "detach", "remove"] {
-                        for x in 0..7 {
-                            for y in 0..7 {
-                                if (op == "detach" || op == "remove") && y != 0 { continue; }
-                                v.push(format!("{} {} {} {} {}", shape, cons, op, x, y));
-                            }
-                        }
-                    }
+                    for c in &calls { v.push(format!("{} {} {}", shape, cons, c)); }
+                }
+            }
+            // quick tier: two-call sequences on the two forests with namespace and attribute nodes only
+            for shape in if large { 0..treeops::shapes() } else { 4..treeops::shapes() } {
+                for cons in if large { vec!["1", "0"] } else { vec!["1"] } {
+                    for c in &calls { for d in &calls { v.push(format!("{} {} {};{}", shape, cons, c, d)); } }
                 }
             }
             v
         }
         "ns_layout" => bounded::ns_layouts(),
+        "deep_equal" => deepeq::inputs(),
+        "three_routes" => routes::inputs(large),
         "char_ref" => bounded::ref_strings(large),
         "level_order" => { let mut v = Vec::new(); for d in 0..3 { for n in 0..12 { v.push(format!("{} {}", d, n)); } } v }
         "scope_queries" => {
@@ -383,22 +397,24 @@ mod treeops {
     use xot::{Node, Xot};
 
     #[derive(Clone, Debug, PartialEq)]
-    pub enum Kind { Doc, Elem(&'static str), Text(String), Comment(String), Attr(&'static str, String) }
+    pub enum Kind { Doc, Elem(&'static str), Text(String), Comment(String), Attr(&'static str, String), Ns(&'static str, &'static str) }
 
     #[derive(Clone, Debug)]
     pub struct M { pub kind: Vec<Kind>, pub parent: Vec<Option<usize>>, pub kids: Vec<Vec<usize>>, pub alive: Vec<bool> }
 
     impl M {
         fn is_text(&self, n: usize) -> bool { matches!(self.kind[n], Kind::Text(_)) }
-        fn normal(&self, n: usize) -> bool { !matches!(self.kind[n], Kind::Attr(..)) }
+        /// 0 namespace node, 1 attribute node, 2 ordinary node
+        fn cat(&self, n: usize) -> u8 { match self.kind[n] { Kind::Ns(..) => 0, Kind::Attr(..) => 1, _ => 2 } }
+        fn normal(&self, n: usize) -> bool { self.cat(n) == 2 }
         fn text(&self, n: usize) -> String { if let Kind::Text(t) = &self.kind[n] { t.clone() } else { String::new() } }
         fn pos(&self, n: usize) -> usize { let p = self.parent[n].unwrap(); self.kids[p].iter().position(|x| *x == n).unwrap() }
         fn prev_same(&self, n: usize) -> Option<usize> {
             let p = self.parent[n]?; let i = self.pos(n); if i == 0 { return None; }
-            let m = self.kids[p][i - 1]; if self.normal(m) == self.normal(n) { Some(m) } else { None } }
+            let m = self.kids[p][i - 1]; if self.cat(m) == self.cat(n) { Some(m) } else { None } }
         fn next_same(&self, n: usize) -> Option<usize> {
             let p = self.parent[n]?; let i = self.pos(n); let m = *self.kids[p].get(i + 1)?;
-            if self.normal(m) == self.normal(n) { Some(m) } else { None } }
+            if self.cat(m) == self.cat(n) { Some(m) } else { None } }
         fn is_anc_or_self(&self, a: usize, mut n: usize) -> bool { loop { if n == a { return true; } match self.parent[n] { Some(p) => n = p, None => return false } } }
         fn detach_raw(&mut self, n: usize) { if let Some(p) = self.parent[n] { let i = self.pos(n); self.kids[p].remove(i); self.parent[n] = None; } }
         fn kill(&mut self, n: usize) { self.detach_raw(n); let ks = self.kids[n].clone(); for k in ks { self.parent[k] = None; self.kill(k); } self.kids[n].clear(); self.alive[n] = false; }
@@ -409,6 +425,7 @@ mod treeops {
         fn may_adopt(&self, p: usize, c: usize) -> bool {
             matches!(self.kind[p], Kind::Elem(_) | Kind::Doc) && self.normal(c) && self.kind[c] != Kind::Doc && !self.is_anc_or_self(c, p) }
         fn last_normal(&self, p: usize) -> Option<usize> { let l = *self.kids[p].last()?; if self.normal(l) { Some(l) } else { None } }
+        fn first_normal(&self, p: usize) -> Option<usize> { self.kids[p].iter().copied().find(|k| self.normal(*k)) }
         /// Ok(true) applied, Ok(false) refused (unchanged), Err = outside the proved domain (known finding)
         pub fn apply(&mut self, op: &str, x: usize, y: usize, cons: bool) -> Result<bool, ()> {
             match op {
@@ -420,6 +437,13 @@ mod treeops {
                     self.leave(c, cons);
                     match self.last_normal(p) { Some(a) if cons && a != c && self.is_text(c) && self.is_text(a) => self.merge(a, c),
                         _ => { self.detach_raw(c); self.kids[p].push(c); self.parent[c] = Some(p); } }
+                    Ok(true) }
+                // the node becomes the first ordinary child, behind the namespace and attribute nodes (C04);
+                // a text node arriving in front of a text node is absorbed by it (C05 known finding: the later node survives)
+                "prepend" => { let (p, c) = (x, y); if !self.may_adopt(p, c) { return Ok(false); }
+                    self.leave(c, cons);
+                    match self.first_normal(p) { Some(b) if cons && b != c && self.is_text(c) && self.is_text(b) => self.absorb(c, b),
+                        _ => { self.detach_raw(c); let i = self.kids[p].iter().filter(|k| !self.normal(**k)).count(); self.kids[p].insert(i, c); self.parent[c] = Some(p); } }
                     Ok(true) }
                 "insert_after" | "insert_before" => { let (r, c) = (x, y);
                     let p = match self.parent[r] { Some(p) => p, None => return Ok(false) };
@@ -450,6 +474,9 @@ mod treeops {
             vec![(Doc, None), (Elem("a"), Some(0)), (Attr("p", "1".into()), Some(1)), (Attr("q", "2".into()), Some(1)), (Elem("b"), Some(1)), (Elem("c"), Some(1)), (Comment("k".into()), Some(5))],
             vec![(Elem("r"), None), (Elem("a"), Some(0)), (Elem("b"), Some(1)), (Elem("c"), Some(2)), (Text("t".into()), Some(0)), (Elem("u"), None), (Text("v".into()), None)],
             vec![(Doc, None), (Elem("a"), Some(0)), (Text("x".into()), Some(1)), (Elem("b"), Some(1)), (Text("t".into()), Some(3)), (Elem("c"), Some(1)), (Text("y".into()), Some(1))],
+            // namespace declarations and attributes together; a childless element that only carries a declaration
+            vec![(Doc, None), (Elem("a"), Some(0)), (Ns("n", "urn:n"), Some(1)), (Attr("p", "1".into()), Some(1)), (Elem("b"), Some(1)), (Ns("m", "urn:m"), Some(4)), (Elem("c"), Some(1)), (Text("w".into()), None)],
+            vec![(Elem("a"), None), (Ns("n", "urn:n"), Some(0)), (Ns("m", "urn:m"), Some(0)), (Attr("p", "1".into()), Some(0)), (Text("x".into()), Some(0)), (Elem("b"), Some(0)), (Ns("k", "urn:k"), Some(5)), (Elem("c"), None)],
         ];
         let shape = &shapes[which % shapes.len()];
         let mut xot = Xot::new();
@@ -463,6 +490,7 @@ mod treeops {
                 Text(t) => xot.new_text(t),
                 Comment(t) => xot.new_comment(t),
                 Attr(nm, v) => { let id = xot.add_name(nm); xot.new_attribute_node(id, v.clone()) }
+                Ns(pre, uri) => { let p = xot.add_prefix(pre); let u = xot.add_namespace(uri); xot.new_namespace_node(p, u) }
             };
             m.kind.push(k.clone()); m.parent.push(None); m.kids.push(vec![]); m.alive.push(true);
             let i = nodes.len();
@@ -475,54 +503,123 @@ mod treeops {
         (m, xot, nodes)
     }
 
-    pub fn shapes() -> usize { 4 }
+    pub fn shapes() -> usize { 6 }
+    pub fn max_nodes() -> usize { 8 }
+
+    /// every child of `n`, namespace and attribute nodes included, through the public all_traverse
+    fn all_kids(xot: &Xot, n: Node) -> Vec<Node> {
+        let mut depth = 0usize;
+        let mut v = Vec::new();
+        for e in xot.all_traverse(n) {
+            match e { xot::NodeEdge::Start(k) => { if depth == 1 { v.push(k); } depth += 1; } xot::NodeEdge::End(_) => { depth -= 1; } }
+        }
+        v
+    }
 
     fn observe(xot: &Xot, nodes: &[Node]) -> Vec<String> {
-        // one line per handle: liveness, parent, all children (attributes included), value
+        // one line per handle: liveness, parent, all children (namespace and attribute nodes included), value
         nodes.iter().map(|n| {
             if xot.is_removed(*n) { return "removed".to_string(); }
             let idx = |x: Node| nodes.iter().position(|y| *y == x).map(|i| i.to_string()).unwrap_or("?".into());
             let parent = xot.parent(*n).map(idx).unwrap_or("-".into());
-            let mut kids: Vec<String> = xot.attributes(*n).nodes().map(idx).collect();
+            let mut kids: Vec<String> = xot.namespaces(*n).nodes().map(idx).collect();
+            kids.extend(xot.attributes(*n).nodes().map(idx));
             kids.extend(xot.children(*n).map(idx));
             format!("p={} k=[{}] v={:?}", parent, kids.join(","), value_str(xot, *n))
         }).collect()
     }
     fn value_str(xot: &Xot, n: Node) -> String {
         match xot.value(n) { xot::Value::Text(t) => format!("T:{}", t.get()), xot::Value::Comment(c) => format!("C:{}", c.get()),
-            xot::Value::Element(_) => "E".into(), xot::Value::Document => "D".into(), xot::Value::Attribute(a) => format!("A:{}", a.value()), _ => "?".into() }
+            xot::Value::Element(_) => "E".into(), xot::Value::Document => "D".into(), xot::Value::Attribute(a) => format!("A:{}", a.value()),
+            xot::Value::Namespace(_) => "N".into(), _ => "?".into() }
     }
     fn observe_model(m: &M) -> Vec<String> {
         (0..m.kind.len()).map(|i| {
             if !m.alive[i] { return "removed".to_string(); }
             let parent = m.parent[i].map(|p| p.to_string()).unwrap_or("-".into());
             let kids: Vec<String> = m.kids[i].iter().map(|k| k.to_string()).collect();
-            let v = match &m.kind[i] { Kind::Text(t) => format!("T:{}", t), Kind::Comment(c) => format!("C:{}", c), Kind::Elem(_) => "E".into(), Kind::Doc => "D".into(), Kind::Attr(_, v) => format!("A:{}", v) };
+            let v = match &m.kind[i] { Kind::Text(t) => format!("T:{}", t), Kind::Comment(c) => format!("C:{}", c), Kind::Elem(_) => "E".into(), Kind::Doc => "D".into(),
+                Kind::Attr(_, v) => format!("A:{}", v), Kind::Ns(..) => "N".into() };
             format!("p={} k=[{}] v={:?}", parent, kids.join(","), v)
         }).collect()
     }
 
-    /// Some(detail) if the real crate deviates from the model for this case
-    pub fn run(which: usize, cons: bool, op: &str, x: usize, y: usize) -> Option<String> {
-        let (mut m, mut xot, nodes) = build(which, cons);
-        if x >= nodes.len() || y >= nodes.len() { return None; }
-        let before = observe(&xot, &nodes);
-        let expected = m.apply(op, x, y, cons);
-        let expected = match expected { Err(()) => return None, Ok(b) => b };
-        let r = panic::catch_unwind(panic::AssertUnwindSafe(|| match op {
+    /// C04: structural validity of everything reachable from the live handles, through public navigation only
+    pub fn validate(xot: &Xot, nodes: &[Node], cons: bool) -> Option<String> {
+        let cat = |n: Node| match xot.value(n) { xot::Value::Namespace(_) => 0u8, xot::Value::Attribute(_) => 1, _ => 2 };
+        let name = |n: Node| nodes.iter().position(|y| *y == n).map(|i| i.to_string()).unwrap_or_else(|| "?".into());
+        for n in nodes.iter().copied().filter(|n| !xot.is_removed(*n)) {
+            let kids = all_kids(xot, n);
+            if !kids.is_empty() && !matches!(xot.value(n), xot::Value::Element(_) | xot::Value::Document) { return Some(format!("node {} is not an element or document but has children", name(n))); }
+            if matches!(xot.value(n), xot::Value::Document) && xot.parent(n).is_some() { return Some(format!("document node {} has a parent", name(n))); }
+            if cat(n) != 2 { if let Some(p) = xot.parent(n) { if !matches!(xot.value(p), xot::Value::Element(_)) { return Some(format!("namespace/attribute node {} under a non-element", name(n))); } } }
+            if let Some(p) = xot.parent(n) { if xot.is_removed(p) { return Some(format!("parent of live node {} is removed", name(n))); }
+                if !all_kids(xot, p).contains(&n) { return Some(format!("node {} is not among the children of its parent {}", name(n), name(p))); } }
+            else if xot.next_sibling(n).is_some() || xot.previous_sibling(n).is_some() { return Some(format!("parentless node {} has a sibling", name(n))); }
+            for w in kids.windows(2) {
+                if cat(w[0]) > cat(w[1]) { return Some(format!("children of {} out of order: {} (category {}) before {} (category {})", name(n), name(w[0]), cat(w[0]), name(w[1]), cat(w[1]))); }
+                if cons && xot.text_str(w[0]).is_some() && xot.text_str(w[1]).is_some() { return Some(format!("adjacent text nodes {} and {} under {}", name(w[0]), name(w[1]), name(n))); }
+            }
+            for k in &kids {
+                if xot.is_removed(*k) { return Some(format!("removed node handed out as a child of {}", name(n))); }
+                if xot.parent(*k) != Some(n) { return Some(format!("child {} of {} has parent {:?}", name(*k), name(n), xot.parent(*k).map(name))); }
+            }
+            let by_cat = |c: u8| kids.iter().copied().filter(|k| cat(*k) == c).collect::<Vec<_>>();
+            if xot.namespaces(n).nodes().collect::<Vec<_>>() != by_cat(0) { return Some(format!("namespaces({}) disagrees with the namespace nodes among its children", name(n))); }
+            if xot.attributes(n).nodes().collect::<Vec<_>>() != by_cat(1) { return Some(format!("attributes({}) disagrees with the attribute nodes among its children", name(n))); }
+            let normal = by_cat(2);
+            if xot.children(n).collect::<Vec<_>>() != normal { return Some(format!("children({}) disagrees with the ordinary nodes among all its children", name(n))); }
+            if xot.first_child(n) != normal.first().copied() || xot.last_child(n) != normal.last().copied() { return Some(format!("first_child/last_child of {} inconsistent with children", name(n))); }
+            for (i, k) in normal.iter().enumerate() {
+                if xot.next_sibling(*k) != normal.get(i + 1).copied() { return Some(format!("next_sibling({}) inconsistent with children({})", name(*k), name(n))); }
+                if xot.previous_sibling(*k) != if i == 0 { None } else { Some(normal[i - 1]) } { return Some(format!("previous_sibling({}) inconsistent with children({})", name(*k), name(n))); }
+            }
+            let mut keys: Vec<_> = xot.attributes(n).keys().collect(); let l = keys.len(); keys.sort(); keys.dedup();
+            if keys.len() != l { return Some(format!("duplicate attribute name under {}", name(n))); }
+            let mut pre: Vec<_> = xot.namespaces(n).keys().collect(); let l = pre.len(); pre.sort(); pre.dedup();
+            if pre.len() != l { return Some(format!("duplicate prefix declared under {}", name(n))); }
+        }
+        None
+    }
+
+    fn call(xot: &mut Xot, nodes: &[Node], op: &str, x: usize, y: usize) -> Result<bool, ()> {
+        panic::catch_unwind(panic::AssertUnwindSafe(|| match op {
             "detach" => xot.detach(nodes[x]).is_ok(),
             "remove" => xot.remove(nodes[x]).is_ok(),
             "append" => xot.append(nodes[x], nodes[y]).is_ok(),
+            "prepend" => xot.prepend(nodes[x], nodes[y]).is_ok(),
             "insert_after" => xot.insert_after(nodes[x], nodes[y]).is_ok(),
             "insert_before" => xot.insert_before(nodes[x], nodes[y]).is_ok(),
             _ => false,
-        }));
-        let ok = match r { Err(_) => return Some(format!("{}({}, {}) panics", op, x, y)), Ok(ok) => ok };
-        let after = observe(&xot, &nodes);
-        if ok != expected { return Some(format!("{}({}, {}) returned {} but the model {}", op, x, y, if ok { "Ok" } else { "Err" }, if expected { "accepts" } else { "refuses" })); }
-        let want = if expected { observe_model(&m) } else { before };
-        if after != want { return Some(format!("{}({}, {}) [{}]: forest {:?} differs from the model {:?}", op, x, y, if ok { "Ok" } else { "Err" }, after, want)); }
+        })).map_err(|_| ())
+    }
+
+    /// Some(detail) if the real crate deviates from the model, or leaves an invalid forest, on this call sequence
+    pub fn run(which: usize, cons: bool, steps: &[(String, usize, usize)]) -> Option<String> {
+        let (mut m, mut xot, nodes) = build(which, cons);
+        let mut done = String::new();
+        for (op, x, y) in steps {
+            let (x, y) = (*x, *y);
+            if x >= nodes.len() || y >= nodes.len() { return None; }
+            // a removed node is not a legal argument
+            if !m.alive[x] || (!(op == "detach" || op == "remove") && !m.alive[y]) { return None; }
+            let before = observe(&xot, &nodes);
+            let expected = match m.apply(op, x, y, cons) { Err(()) => return None, Ok(b) => b };
+            let here = format!("{}{}({}, {})", done, op, x, y);
+            let ok = match call(&mut xot, &nodes, op, x, y) { Err(()) => return Some(format!("{} panics", here)), Ok(ok) => ok };
+            let after = observe(&xot, &nodes);
+            if ok != expected { return Some(format!("{} returned {} but the model {}", here, if ok { "Ok" } else { "Err" }, if expected { "accepts" } else { "refuses" })); }
+            let want = if expected { observe_model(&m) } else { before };
+            if after != want { return Some(format!("{} [{}]: forest {:?} differs from the model {:?}", here, if ok { "Ok" } else { "Err" }, after, want)); }
+            if let Some(d) = validate(&xot, &nodes, cons) { return Some(format!("{}: structurally invalid forest (C04): {}", here, d)); }
+            done = format!("{}; ", here);
+        }
         None
+    }
+
+    /// "op x y[;op x y]..."
+    pub fn parse_steps(s: &str) -> Option<Vec<(String, usize, usize)>> {
+        s.split(';').map(|st| { let f: Vec<&str> = st.trim().split(' ').collect(); if f.len() != 3 { return None; } Some((f[0].to_string(), f[1].parse().ok()?, f[2].parse().ok()?)) }).collect()
     }
 }
 // (C10 witness) no-namespace element below a default namespace declaration
@@ -727,6 +824,246 @@ fn c20_fixed_doc(input: &str) -> Option<String> {
     let show = |tag: &str, i: usize| if i % 2 == 0 { format!("<!--{}{}-->", tag, i) } else { format!("<?{}{}?>", tag, i) };
     let want: String = (0..nb).map(|i| show("b", i)).collect::<String>() + "<e>t</e>" + &(0..na).map(|i| show("a", i)).collect::<String>();
     if got != want { Some(format!("xotify gives {:?}, expected {:?}", got, want)) } else { None }
+}
+
+// (C20) the same abstract document built by parse, by fixed::xotify and by several stepwise orders is the same tree
+#[allow(dead_code)]
+mod routes {
+    use xot::{fixed, Node, Xot};
+
+    fn name(local: &str, ns: &str) -> fixed::Name { fixed::Name { namespace: ns.into(), localname: local.into() } }
+
+    /// input: "<root flags>|<children>|<before><after>"; flags: n = declaration, a = attribute; children over
+    /// e (empty element), f (element with declaration, attribute and text), t (text), c (comment), p (PI)
+    pub fn doc_of(input: &str) -> Option<fixed::Document> {
+        let f: Vec<&str> = input.split('|').collect();
+        if f.len() != 3 { return None; }
+        let mut children = Vec::new();
+        let mut last_text = false;
+        for (i, ch) in f[1].chars().enumerate() {
+            let c = match ch {
+                'e' => fixed::Content::Element(fixed::Element { name: name("e", ""), prefixes: vec![], attributes: vec![], children: vec![] }),
+                'f' => fixed::Content::Element(fixed::Element { name: name("f", "urn:q"),
+                    prefixes: vec![fixed::Prefix { name: "q".into(), namespace: "urn:q".into() }, fixed::Prefix { name: "r".into(), namespace: "urn:r".into() }],
+                    attributes: vec![(name("x", ""), format!("v{}", i)), (name("y", "urn:r"), "w".into())],
+                    children: vec![fixed::Content::Text("u".into()), fixed::Content::Element(fixed::Element { name: name("g", ""), prefixes: vec![], attributes: vec![(name("z", ""), "1".into())], children: vec![] })] }),
+                't' => fixed::Content::Text(format!("t{}", i)),
+                'c' => fixed::Content::Comment(format!("c{}", i)),
+                'p' => fixed::Content::ProcessingInstruction(fixed::ProcessingInstruction { target: format!("p{}", i), content: Some("d".into()) }),
+                _ => return None,
+            };
+            if ch == 't' && last_text { return None; }   // two adjacent text nodes are not an abstract document
+            last_text = ch == 't';
+            children.push(c);
+        }
+        let root = fixed::Element { name: name("a", if f[0].contains('n') { "urn:p" } else { "" }),
+            prefixes: if f[0].contains('n') { vec![fixed::Prefix { name: "p".into(), namespace: "urn:p".into() }] } else { vec![] },
+            attributes: if f[0].contains('a') { vec![(name("id", ""), "d1".into())] } else { vec![] }, children };
+        let dc = |ch: char, i: usize| match ch { 'c' => Some(fixed::DocumentContent::Comment(format!("k{}", i))),
+            'p' => Some(fixed::DocumentContent::ProcessingInstruction(fixed::ProcessingInstruction { target: format!("pi{}", i), content: None })), _ => None };
+        let (b, a) = f[2].split_once('/')?;
+        Some(fixed::Document { before: b.chars().enumerate().filter_map(|(i, c)| dc(c, i)).collect(), document_element: root,
+            after: a.chars().enumerate().filter_map(|(i, c)| dc(c, i + 10)).collect() })
+    }
+
+    fn render_el(e: &fixed::Element, scope: &mut Vec<(String, String)>, out: &mut String) {
+        let n0 = scope.len();
+        for p in &e.prefixes { scope.push((p.name.clone(), p.namespace.clone())); }
+        let qn = |n: &fixed::Name, scope: &Vec<(String, String)>| if n.namespace.is_empty() { n.localname.clone() } else {
+            let p = scope.iter().rev().find(|(_, u)| *u == n.namespace).map(|(p, _)| p.clone()).unwrap(); format!("{}:{}", p, n.localname) };
+        out.push('<'); out.push_str(&qn(&e.name, scope));
+        for p in &e.prefixes { out.push_str(&format!(" xmlns:{}=\"{}\"", p.name, p.namespace)); }
+        for (n, v) in &e.attributes { out.push_str(&format!(" {}=\"{}\"", qn(n, scope), v)); }
+        if e.children.is_empty() { out.push_str("/>"); } else {
+            out.push('>');
+            for c in &e.children { match c {
+                fixed::Content::Text(t) => out.push_str(t),
+                fixed::Content::Comment(t) => out.push_str(&format!("<!--{}-->", t)),
+                fixed::Content::ProcessingInstruction(p) => out.push_str(&format!("<?{}{}?>", p.target, p.content.as_ref().map(|c| format!(" {}", c)).unwrap_or_default())),
+                fixed::Content::Element(e) => render_el(e, scope, out),
+            } }
+            out.push_str(&format!("</{}>", qn(&e.name, scope)));
+        }
+        scope.truncate(n0);
+    }
+    pub fn render(d: &fixed::Document) -> String {
+        let mut out = String::new();
+        let dc = |c: &fixed::DocumentContent| match c { fixed::DocumentContent::Comment(t) => format!("<!--{}-->", t),
+            fixed::DocumentContent::ProcessingInstruction(p) => format!("<?{}?>", p.target) };
+        for c in &d.before { out.push_str(&dc(c)); }
+        render_el(&d.document_element, &mut Vec::new(), &mut out);
+        for c in &d.after { out.push_str(&dc(c)); }
+        out
+    }
+
+    #[derive(Clone, Copy, Debug)]
+    pub enum Order { TopDownAppend, BottomUpAppend, RightToLeftPrepend, RightToLeftInsertBefore, DeclarationsLast }
+
+    fn decorate(xot: &mut Xot, el: Node, e: &fixed::Element) {
+        for p in &e.prefixes { let pi = xot.add_prefix(&p.name); let ni = xot.add_namespace(&p.namespace); xot.namespaces_mut(el).insert(pi, ni); }
+        for (n, v) in &e.attributes { let ni = n.xotify(xot); xot.attributes_mut(el).insert(ni, v.clone()); }
+    }
+    fn leaf(xot: &mut Xot, c: &fixed::Content) -> Option<Node> {
+        match c { fixed::Content::Text(t) => Some(xot.new_text(t)), fixed::Content::Comment(t) => Some(xot.new_comment(t)),
+            fixed::Content::ProcessingInstruction(p) => { let t = xot.add_name(&p.target); Some(xot.new_processing_instruction(t, p.content.as_deref())) }
+            fixed::Content::Element(_) => None }
+    }
+    /// builds the element; if `parent` is given the element is linked below it by `link` before or after its
+    /// content is built, depending on the order
+    fn build(xot: &mut Xot, e: &fixed::Element, order: Order) -> Result<Node, xot::Error> {
+        let nm = e.name.xotify(xot);
+        let el = xot.new_element(nm);
+        if !matches!(order, Order::DeclarationsLast) { decorate(xot, el, e); }
+        match order {
+            Order::TopDownAppend | Order::DeclarationsLast => {
+                for c in &e.children { match c { fixed::Content::Element(ce) => {
+                        // top-down: the child is linked first and filled afterwards
+                        let cn = ce.name.xotify(xot); let cel = xot.new_element(cn); xot.append(el, cel)?;
+                        let filled = build(xot, ce, order)?; xot.replace(cel, filled)?; }
+                    other => { let n = leaf(xot, other).unwrap(); xot.append(el, n)?; } } }
+            }
+            Order::BottomUpAppend => {
+                let mut built = Vec::new();
+                for c in &e.children { built.push(match c { fixed::Content::Element(ce) => build(xot, ce, order)?, other => leaf(xot, other).unwrap() }); }
+                for n in built { xot.append(el, n)?; }
+            }
+            Order::RightToLeftPrepend => {
+                for c in e.children.iter().rev() { let n = match c { fixed::Content::Element(ce) => build(xot, ce, order)?, other => leaf(xot, other).unwrap() }; xot.prepend(el, n)?; }
+            }
+            Order::RightToLeftInsertBefore => {
+                let mut reference: Option<Node> = None;
+                for c in e.children.iter().rev() {
+                    let n = match c { fixed::Content::Element(ce) => build(xot, ce, order)?, other => leaf(xot, other).unwrap() };
+                    match reference { None => xot.append(el, n)?, Some(r) => xot.insert_before(r, n)? }
+                    reference = Some(n);
+                }
+            }
+        }
+        if matches!(order, Order::DeclarationsLast) { decorate(xot, el, e); }
+        Ok(el)
+    }
+    fn build_doc(xot: &mut Xot, d: &fixed::Document, order: Order) -> Result<Node, xot::Error> {
+        let el = build(xot, &d.document_element, order)?;
+        let doc = xot.new_document_with_element(el)?;
+        let dc = |xot: &mut Xot, c: &fixed::DocumentContent| match c { fixed::DocumentContent::Comment(t) => xot.new_comment(t),
+            fixed::DocumentContent::ProcessingInstruction(p) => { let t = xot.add_name(&p.target); xot.new_processing_instruction(t, p.content.as_deref()) } };
+        match order {
+            Order::RightToLeftPrepend => { for c in d.before.iter().rev() { let n = dc(xot, c); xot.prepend(doc, n)?; } for c in &d.after { let n = dc(xot, c); xot.append(doc, n)?; } }
+            _ => { for c in &d.before { let n = dc(xot, c); xot.insert_before(el, n)?; } for c in d.after.iter().rev() { let n = dc(xot, c); xot.insert_after(el, n)?; } }
+        }
+        Ok(doc)
+    }
+
+    fn decls(xot: &Xot, root: Node) -> Vec<Vec<(String, String)>> {
+        xot.descendants(root).filter(|n| xot.is_element(*n)).map(|n| xot.namespaces(n).iter().map(|(p, u)| (xot.prefix_str(p).to_string(), xot.namespace_str(*u).to_string())).collect()).collect()
+    }
+
+    pub fn check(input: &str) -> Option<String> {
+        let d = doc_of(input)?;
+        let text = render(&d);
+        let mut xot = Xot::new();
+        let parsed = match xot.parse(&text) { Ok(n) => n, Err(e) => return Some(format!("rendering {:?} does not parse: {:?}", text, e)) };
+        let want = xot.to_string(parsed).ok()?;
+        let want_decls = decls(&xot, parsed);
+        let fixedn = d.xotify(&mut xot);
+        let mut routes: Vec<(String, Node)> = vec![("fixed::Document::xotify".into(), fixedn)];
+        for order in [Order::TopDownAppend, Order::BottomUpAppend, Order::RightToLeftPrepend, Order::RightToLeftInsertBefore, Order::DeclarationsLast] {
+            match build_doc(&mut xot, &d, order) { Ok(n) => routes.push((format!("stepwise {:?}", order), n)), Err(e) => return Some(format!("stepwise {:?} of {:?} fails: {:?}", order, text, e)) }
+        }
+        for (label, n) in routes {
+            let got = match xot.to_string(n) { Ok(s) => s, Err(e) => return Some(format!("{} of {:?} does not serialise: {:?}", label, text, e)) };
+            if got != want { return Some(format!("{}: serialises as {:?}, the parsed document as {:?}", label, got, want)); }
+            if !xot.deep_equal(parsed, n) || !xot.deep_equal(n, parsed) { return Some(format!("{} of {:?} is not deep-equal to the parsed document", label, text)); }
+            if decls(&xot, n) != want_decls { return Some(format!("{} of {:?}: declarations {:?}, parsed {:?}", label, text, decls(&xot, n), want_decls)); }
+        }
+        None
+    }
+
+    pub fn inputs(large: bool) -> Vec<String> {
+        let kinds = ['e', 'f', 't', 'c', 'p'];
+        let mut seqs: Vec<String> = vec![String::new()];
+        let mut frontier = seqs.clone();
+        for _ in 0..(if large { 4 } else { 3 }) {
+            let mut next = Vec::new();
+            for s in &frontier { for k in kinds { if k == 't' && s.ends_with('t') { continue; } next.push(format!("{}{}", s, k)); } }
+            seqs.extend(next.iter().cloned());
+            frontier = next;
+        }
+        let mut v = Vec::new();
+        for flags in ["", "n", "a", "na"] { for s in &seqs { for ba in ["/", "c/", "/p", "cp/pc", "p/cc"] {
+            if !large && ba.len() > 2 && s.len() > 2 { continue; }
+            v.push(format!("{}|{}|{}", flags, s, ba));
+        }}}
+        v
+    }
+}
+
+// (C13) deep_equal and its variants against equality of independently computed canonical forms
+#[allow(dead_code)]
+mod deepeq {
+    use xot::{Node, Xot};
+
+    /// the family of small documents compared pairwise; they differ in exactly the features the property lists
+    pub fn docs() -> Vec<&'static str> {
+        vec![
+            "<e/>", "<f/>", "<e x=\"1\"/>", "<e x=\"2\"/>", "<e y=\"1\"/>", "<e x=\"1\" y=\"2\"/>", "<e y=\"2\" x=\"1\"/>", "<e x=\"1\" y=\"3\"/>",
+            "<e y=\"2\" x=\"1\" z=\"3\"/>", "<e x=\"1\" y=\"2\" z=\"3\"/>", "<e z=\"3\" y=\"2\" x=\"1\"/>", "<e z=\"3\" x=\"1\"/>", "<e x=\"1\" z=\"3\"/>",
+            "<e>t</e>", "<e>u</e>", "<e><!--c--></e>", "<e><!--d--></e>", "<e><?p d?></e>", "<e><?p?></e>", "<e><?q d?></e>", "<e>t<!--c--></e>", "<e><!--c-->t</e>",
+            "<e><a/><b/></e>", "<e><b/><a/></e>", "<e><a/></e>", "<e><a/><b/><a/></e>", "<e><a x=\"1\" y=\"2\"/></e>", "<e><a y=\"2\" x=\"1\"/></e>", "<e><a y=\"2\" x=\"1\" z=\"3\"/></e>", "<e><a><b/></a></e>", "<e><a/><b/><!--c--></e>",
+            "<p:e xmlns:p=\"urn:1\"/>", "<q:e xmlns:q=\"urn:1\"/>", "<e xmlns=\"urn:1\"/>", "<p:e xmlns:p=\"urn:2\"/>", "<e xmlns:p=\"urn:1\"/>",
+            "<e xmlns:p=\"urn:1\" p:x=\"1\"/>", "<e xmlns:q=\"urn:1\" q:x=\"1\"/>", "<e xmlns:p=\"urn:2\" p:x=\"1\"/>", "<e xmlns:p=\"urn:1\" p:x=\"1\" x=\"1\"/>", "<e xmlns:p=\"urn:1\" x=\"1\" p:x=\"1\"/>",
+        ]
+    }
+
+    /// canonical form: kind, expanded names, sorted attribute set, content, child sequence; prefixes and declarations dropped
+    pub fn canon(xot: &Xot, n: Node, xpath: bool) -> String {
+        use xot::Value::*;
+        match xot.value(n) {
+            Document => format!("D[{}]", kids(xot, n, xpath)),
+            Element(e) => { let (l, u) = xot.name_ns_str(e.name());
+                let mut at: Vec<String> = xot.attributes(n).iter().map(|(k, v)| { let (l, u) = xot.name_ns_str(k); format!("{{{}}}{}={:?}", u, l, v) }).collect();
+                at.sort();
+                format!("E{{{}}}{}({})[{}]", u, l, at.join(","), kids(xot, n, xpath)) }
+            Text(t) => format!("T{:?}", t.get()),
+            Comment(c) => format!("C{:?}", c.get()),
+            ProcessingInstruction(p) => { let (l, u) = xot.name_ns_str(p.target()); format!("P{{{}}}{}:{:?}", u, l, p.data()) }
+            Attribute(a) => { let (l, u) = xot.name_ns_str(a.name()); format!("A{{{}}}{}={:?}", u, l, a.value()) }
+            Namespace(ns) => format!("N{}={}", xot.prefix_str(ns.prefix()), xot.namespace_str(ns.namespace())),
+        }
+    }
+    fn kids(xot: &Xot, n: Node, xpath: bool) -> String {
+        xot.children(n).filter(|c| !xpath || xot.is_element(*c) || xot.is_text(*c)).map(|c| canon(xot, c, xpath)).collect::<Vec<_>>().join(";")
+    }
+
+    pub fn check(input: &str) -> Option<String> {
+        let (i, j) = input.split_once(' ')?;
+        let (i, j): (usize, usize) = (i.parse().ok()?, j.parse().ok()?);
+        let ds = docs();
+        let mut xot = Xot::new();
+        let ra = xot.parse(ds.get(i)?).ok()?;
+        let rb = xot.parse(ds.get(j)?).ok()?;
+        for (what, a, b) in [("documents", ra, rb), ("document elements", xot.document_element(ra).ok()?, xot.document_element(rb).ok()?)] {
+            let same = canon(&xot, a, false) == canon(&xot, b, false);
+            if xot.deep_equal(a, b) != same { return Some(format!("deep_equal({}, {}) on the {} is {}, canonical forms are {}", ds[i], ds[j], what, !same, if same { "equal" } else { "different" })); }
+            if xot.deep_equal(a, b) != xot.deep_equal(b, a) { return Some(format!("deep_equal({}, {}) on the {} is not symmetric", ds[i], ds[j], what)); }
+            let same_x = canon(&xot, a, true) == canon(&xot, b, true);
+            if xot.deep_equal_xpath(a, b, |x, y| x == y) != same_x { return Some(format!("deep_equal_xpath({}, {}) on the {} is {}, canonical forms without comments and PIs are {}", ds[i], ds[j], what, !same_x, if same_x { "equal" } else { "different" })); }
+            let same_c = kids(&xot, a, false) == kids(&xot, b, false);
+            if xot.deep_equal_children(a, b) != same_c { return Some(format!("deep_equal_children({}, {}) on the {} is {}, child sequences are {}", ds[i], ds[j], what, !same_c, if same_c { "equal" } else { "different" })); }
+            if xot.advanced_deep_equal(a, b, |_| true, |x, y| x == y) != same { return Some(format!("advanced_deep_equal({}, {}) with the trivial filter disagrees with canonical forms", ds[i], ds[j])); }
+        }
+        // string_value: concatenation of descendant text in document order
+        let text: String = xot.descendants(ra).filter_map(|n| xot.text_str(n)).collect();
+        if xot.string_value(ra) != text { return Some(format!("string_value of {} is {:?}, descendant text is {:?}", ds[i], xot.string_value(ra), text)); }
+        None
+    }
+
+    pub fn inputs() -> Vec<String> {
+        let n = docs().len();
+        let mut v = Vec::new();
+        for i in 0..n { for j in 0..n { v.push(format!("{} {}", i, j)); } }
+        v
+    }
 }
 
 // (C09) scope queries against nearest-declaration-wins, computed independently from the declarations on the path
